@@ -2451,7 +2451,9 @@ namespace xsimd
             {
                 B x = select(test, B(2.), a);
 #ifndef XSIMD_NO_INFINITIES
-                auto inf_result = (a == constants::infinity<B>());
+                // gamma overflows beyond 171.7 (35.1 in single precision): do not run the
+                // x -> x - 1 recurrence below for an unbounded number of steps
+                auto inf_result = (a > B(172.));
                 x = select(inf_result, B(2.), x);
 #endif
                 B z = B(1.);
@@ -2481,7 +2483,7 @@ namespace xsimd
                 }
                 x = z * tgamma_kernel<B>::compute(x - B(2.));
 #ifndef XSIMD_NO_INFINITIES
-                return select(inf_result, a, x);
+                return select(inf_result, constants::infinity<B>(), x);
 #else
                 return x;
 #endif
